@@ -781,3 +781,8 @@ Proof.
   split; [apply events_eqb_eq; auto|]. split; [auto|].
   intros k ov Hin. rewrite forallb_forall in H2. specialize (H2 _ Hin). cbn in H2. apply optN_eqb_eq; auto.
 Qed.
+
+Lemma holder_can_step_reach : forall cfg s c cl,
+  reachable cfg s -> nth_error (callers s) c = Some cl -> in_read cl = true \/ in_write cl = true ->
+  exists s', step s c = Some s'.
+Proof. intros cfg s c cl H. exact (holder_can_step s c cl (reachable_inv cfg s H)). Qed.
